@@ -33,4 +33,21 @@ PROPS = {
             "voter lists are the key lists of Go maps (duplicate free); acknowledged indexes are uint64 values",
         ],
     },
+    "C07": {
+        "props": "Props/C07.v",
+        "level": "proof",
+        "cluster": True,
+        "rule": CLUSTER_RULE,
+        "explanation": "Theorems C07_incarnation / C07_exposed / C07_restart / C07_step (Props/C07.v): over the executable "
+        "node model (Model/Raft.v, RawNode.v: a function-by-function transcription of raft.go and rawnode.go) the hard state "
+        "(term, vote, commit) moves forward only, for every sequence of RawNode API calls, every message of any type, term "
+        "and content, every storage write, and a restart continues from exactly the persisted hard state. The model is tied "
+        "to /repo by lockstep execution: every call made on a real RawNode by the cluster harness is replayed on the "
+        "extracted model and all observables (Ready contents, full internal state, storage) compared.",
+        "assumptions": [
+            "wf_input: a stepped MsgApp/MsgHeartbeat/MsgSnap carries a non-zero term (true of every message raft sends)",
+            "terms, indexes and sizes stay below 2^63 (no uint64 wrap-around in additions)",
+            "clause (d) of the design (no emitted message carries a term below the incarnation's starting term) is monitored on the implementation, not yet proved",
+        ],
+    },
 }
